@@ -54,8 +54,14 @@ def make_modifiers(rng, net, nmax=2, maxdeps=1):
         factors, deps = [], []
         for _ in range(nt):
             v = round(rng.uniform(-3, 3), 3) or 1.5
-            if rng.random() < 0.3:
+            r_ = rng.random()
+            if r_ < 0.3:
                 factors.append((f"nH*{abs(v)}", 100.0 * abs(v)))   # nH is set to 1e2 by the harness
+            elif r_ < 0.45:
+                # sums and differences of parenthesised groups: the factor as a whole multiplies the abundance product
+                w = round(rng.uniform(0.1, 2), 3)
+                factors.append(rng.choice([(f"({abs(v)}) - ({w})", abs(v) - w), (f"(nH*{w}) + ({abs(v)})", 100.0 * w + abs(v)),
+                                           (f"{abs(v)} - {w}", abs(v) - w), (f"-({w}) - ({abs(v)})", -w - abs(v))]))
             else:
                 factors.append((repr(v), v))
             nd = rng.randint(0 if maxdeps == 0 else 1, maxdeps)
